@@ -14,7 +14,7 @@ use crate::opt::OptCfg;
 use crate::statejson::{self, ShapeSpec};
 
 pub const TITLE: &str = "Same seed, same answer: results do not depend on threads or other replicas";
-pub const RULE: &str = "part batches: a batch of 4..24 optimisation tasks (hard polygon / hard discs / Lennard-Jones, any group, configurations with an explicit seed, 50..1500 steps, duplicates included), each run alone on the calling thread to obtain the reference JSON, then the whole batch run concurrently on rayon pools of generated sizes (1..16 threads; four batches at a time) in a generated submission order, every task cloning one shared input state per (kind, group, shape) inside its worker. Oracle: every concurrent result serialises byte-identically to its reference; the shared input states serialise byte-identically before and after. part cli: the real binary with generated arguments under RAYON_NUM_THREADS in {1,2,3,5,8,16} and repeated (a quarter of the cases with 8..24 replicas and a step size of 1e-8..1e-10, so that the replicas nearly tie); .json and .svg byte-identical throughout. part selection: 3..40 states whose scores form chains of near-ties (relative differences 1e-14..1e-7): the best one selected by a parallel max() on pools of 1..16 threads must be the state selected sequentially. Non-trivial = a pool run in which >= 2 tasks were observed running at the same time on >= 2 distinct worker threads (counted with an atomic in-flight counter, no clock), or a CLI case with >= 2 replications; distinct by hash of the case.";
+pub const RULE: &str = "part batches: a batch of 4..24 optimisation tasks (hard polygon / hard discs / Lennard-Jones, any group, configurations with an explicit seed, 50..1500 steps, duplicates included), each run alone on the calling thread to obtain the reference JSON, then the whole batch run concurrently on rayon pools of generated sizes (1..16 threads; four batches at a time) in a generated submission order, every task cloning one shared input state per (kind, group, shape) inside its worker. Oracle: every concurrent result serialises byte-identically to its reference; the shared input states serialise byte-identically before and after. part cli: the real binary with generated arguments under RAYON_NUM_THREADS in {1,2,3,5,8,16} and repeated (two fifths of the cases with 8..24 replicas and either a step size of 1e-8..1e-10, so that the replicas nearly tie, or a step size of 1e3..1e6 or 1e-17, so that different replicas end with bit-identical scores); .json and .svg byte-identical throughout. part selection: 3..40 states whose scores form chains of near-ties (relative differences 1e-14..1e-7): the best one selected by a parallel max() on pools of 1..16 threads must be the state selected sequentially. Non-trivial = a pool run in which >= 2 tasks were observed running at the same time on >= 2 distinct worker threads (counted with an atomic in-flight counter, no clock), or a CLI case with >= 2 replications; distinct by hash of the case.";
 
 pub fn assumptions() -> Vec<&'static str> {
     vec![
@@ -211,7 +211,7 @@ fn cli_strat(_: &Ctx) -> BoxedStrategy<CliCase> {
         Just(CliShape::Circle),
         (0.3..1.2f64, 30.0..180.0f64, 0.4..1.0f64).prop_map(|(distance, angle, radius)| CliShape::Trimer { distance: Some(distance), angle: Some(angle), radius: Some(radius) }),
     ];
-    (0usize..7, shape, any::<bool>(), 1i64..=6, prop_oneof![Just(100i64), Just(400)], proptest::collection::vec(proptest::sample::select(vec![1usize, 2, 3, 5, 8, 16]), 2..=3), prop_oneof![3 => Just(None), 1 => (8i64..=24, prop_oneof![Just(1e-9f64), Just(1e-10), Just(1e-8)]).prop_map(Some)])
+    (0usize..7, shape, any::<bool>(), 1i64..=6, prop_oneof![Just(100i64), Just(400)], proptest::collection::vec(proptest::sample::select(vec![1usize, 2, 3, 5, 8, 16]), 2..=3), prop_oneof![3 => Just(None), 1 => (8i64..=24, prop_oneof![Just(1e-9f64), Just(1e-10), Just(1e-8)]).prop_map(Some), 1 => (8i64..=24, prop_oneof![Just(1e3f64), Just(1e6), Just(1e-17)]).prop_map(Some)])
         .prop_map(|(g, shape, lj, replications, steps, threads, near_ties)| {
             let lj = lj && !matches!(shape, CliShape::Polygon { .. });
             // near-tie regime: many replicas that barely move, so that their scores agree to many digits and the
